@@ -157,6 +157,33 @@ Lemma post_mismatch_example :
   <> outcome ex_step (fun _ => true) (fun s => s "results") (fun _ r => rev r) ex_flow_resume 1 s tt.
 Proof. split; [reflexivity|]. vm_compute. discriminate. Qed.
 
+(* the resumed run advertises (autosaves to, removes at the end) the file it was given *)
+Lemma adv_at_run_given (P : Type) (given recorded : P) (fl : list stage) :
+  forall (cur : option P) (seen : bool),
+    (seen = true -> cur = Some given) ->
+    file_rebound_from fl seen = true ->
+    adv_at_run fl cur given recorded = Some given.
+Proof.
+  induction fl as [|stg fl IH]; intros cur seen Hseen H; simpl in *; [discriminate|].
+  destruct stg; try (apply (IH cur seen Hseen H)).
+  - (* SLoad *) apply (IH (Some recorded) false); [discriminate | exact H].
+  - (* SRebind *) destruct (String.eqb f "autosave_file") eqn:E; simpl in H.
+    + apply (IH (Some given) true); [reflexivity | exact H].
+    + apply (IH cur seen Hseen H).
+  - (* SRun *) apply Hseen. exact H.
+Qed.
+
+Theorem resumed_file_is_given (P : Type) (fl : list stage) (given recorded : P) :
+  file_rebound fl = true -> adv_at_run fl None given recorded = Some given.
+Proof.
+  intros H. apply (@adv_at_run_given P given recorded fl None false); [discriminate | exact H].
+Qed.
+
+Lemma file_rebound_example :
+  file_rebound [SLoad; SRebind "autosave_file"; SRun] = true /\ file_rebound [SLoad; SLog; SRun] = false /\
+  adv_at_run [SLoad; SLog; SRun] None 1 2 = Some 2.
+Proof. repeat split. Qed.
+
 (* autosave_removed: whatever is on disk, after `if f.is_file(): os.remove(f)` the file is gone *)
 Lemma remove_if_file_removes (C : Type) (pl : platform) (c : C) (s : fs C) :
   exists s', final pl c [IfFile Adv (Remove Adv)] s = Some s' /\ s' Adv = None.
